@@ -29,7 +29,7 @@ class Obligation:
     __slots__ = ('name', 'hyps', 'goal', 'kind', 'fn', 'note')
 
     def __init__(self, name, hyps, goal, kind, fn, note=''):
-        self.name, self.hyps, self.goal, self.kind, self.fn, self.note = name, list(hyps), goal, kind, fn, note
+        self.name, self.hyps, self.goal, self.kind, self.fn, self.note = name, [as_hyp(x) for x in hyps], as_goal(goal), kind, fn, note
 
 
 class State:
@@ -47,6 +47,7 @@ class State:
     def assume(self, f):
         if f is None:
             return
+        f = as_hyp(f)
         if isinstance(f, bool):
             f = z3.BoolVal(f)
         if z3.is_true(f):
